@@ -49,9 +49,11 @@ def check_C23(tier, seed):
     import meta
     res = Result("C23", tier, seed, "model_checking")
     wd = workdir("C23")
-    base = universe.semantic_universe(tier, seed + 2300)
-    base = base[: (250 if tier == "quick" else 5000)]
-    cases = meta.meta_cases(base, seed)
+    full = universe.semantic_universe(tier, seed + 2300)
+    rnd = [i for i in full if i["cls"].get("family") == "random"]; fam = [i for i in full if i["cls"].get("family") != "random"]
+    nb = 500 if tier == "quick" else 6000
+    base = rnd[:nb] + fam[::max(1, len(fam) // (nb // 2))][: nb // 2]
+    cases = meta.meta_cases(base, seed, tier)
     # one flat instance list for the engine
     flat = []
     for c in cases:
